@@ -537,3 +537,152 @@ def obj_lat(q, role):
       return binary_lat(True)
     return FixedLat(q.bits, q.int_bits, q.is_signed)
   return FixedLat(q.bits, q.int_bits, q.is_signed)
+
+
+# --------------------------------------------------------------------------
+# operand objects with a HISTORY (C16 part H): a qtools type object is created
+# as one type, looked at through the public read-only API, re-sized to another
+# type, possibly looked at again, and only then handed to an operator factory.
+#
+# history description (JSON):
+#   {"start": <type description of the same kind family>,
+#    "pre":  [op, ...], "post": [op, ...],          observation ops, see OPS
+#    "resize": "assign" | "convert" | "update",
+#    "upd": {"neg": 0|1, "e": int, "reset": 0|1}}   only for "update"
+# resize routes
+#   assign   the public fields (bits, int_bits, is_signed, max_val_po2, name,
+#            mode / use_01) are re-assigned directly (what qtools itself does to
+#            operator output types before they become the next operand)
+#   convert  obj.convert_qkeras_quantizer(<qkeras quantizer of the target>)
+#   update   PowerOfTwo.update_quantizer(+-2^e, reset): the target type is then
+#            whatever the reported fields say afterwards (desc_from_fields)
+
+OPS = ("exp", "acc", "qk", "mul", "clone", "copy", "inf", "fields")
+
+
+def apply_ops(q, ops):
+  """observation ops of the public API; "clone"/"copy" continue with the copy."""
+  import copy  # pylint: disable=g-import-not-at-top
+  import numpy as np  # pylint: disable=g-import-not-at-top
+  from qkeras.qtools.quantized_operators import accumulator_impl  # pylint: disable=g-import-not-at-top
+  from qkeras.qtools.quantized_operators import multiplier_factory  # pylint: disable=g-import-not-at-top
+  from qkeras.qtools.quantized_operators import quantizer_factory  # pylint: disable=g-import-not-at-top
+  from qkeras.qtools.quantized_operators import quantizer_impl as QI  # pylint: disable=g-import-not-at-top
+  for op in ops:
+    if op == "exp":
+      if hasattr(q, "get_min_max_exp"):
+        q.get_min_max_exp()
+    elif op == "acc":
+      if hasattr(q, "get_min_max_exp"):
+        accumulator_impl.po2_to_qbits(q)
+    elif op == "qk":
+      if not q.is_floating_point:
+        q.convert_to_qkeras_quantizer()
+    elif op == "mul":
+      p = QI.QuantizedBits()
+      p.bits, p.int_bits, p.is_signed = 4, 1, 1
+      mf = multiplier_factory.MultiplierFactory()
+      mf.make_multiplier(q, p)
+      mf.make_multiplier(p, q)
+    elif op == "clone":
+      q = quantizer_factory.QuantizerFactory().make_quantizer(q)
+    elif op == "copy":
+      q = copy.deepcopy(q)
+    elif op == "inf":
+      if hasattr(q, "update_inference_values"):
+        q.update_inference_values(np.array([[0.5, 1.0], [1.0, 2.0]]))
+    elif op == "fields":
+      fields(q)
+    else:
+      raise ValueError("unknown history op %r" % (op,))
+  return q
+
+
+def history_ok(start, target, resize):
+  """is the re-size route applicable (class of the start object accepts it)?"""
+  ks, kt = start["k"], target["k"]
+  fam = lambda k: "bin" if k in ("binary", "binary01") else k
+  if fam(ks) != fam(kt) or fam(kt) not in ("fixed", "po2", "bin"):
+    return False
+  if target.get("q") or start.get("q") not in (None, "quantized_bits"):
+    return False
+  if resize == "update":
+    return kt == "po2"
+  if resize == "convert" and kt in ("fixed", "po2"):
+    # QuantizedRelu / ReluPowerOfTwo only convert their own (unsigned)
+    # quantizer; QuantizedBits (signed start, or an unsigned quantized_bits
+    # through the factory) and PowerOfTwo convert both signs
+    return bool(start["signed"]) or start.get("q") == "quantized_bits" or not target["signed"]
+  return resize in ("assign", "convert")
+
+
+def desc_from_fields(q):
+  """type description encoded by the reported fields of a po2 object, None if
+  the fields do not describe a well-formed type (cap <= 0 other than the
+  documented -1 = no cap, cap below the smallest magnitude, or no exponent
+  bit)."""
+  if obj_kind(q) != "po2":
+    raise ValueError("desc_from_fields: po2 only")
+  bits, signed = int(q.bits), int(bool(q.is_signed))
+  if bits != q.bits or bits - signed < 1:
+    return None
+  mv = float(q.max_val_po2)
+  d = {"k": "po2", "bits": bits, "signed": signed, "max": None, "via": "impl"}
+  if mv == -1:
+    return d
+  if mv <= 0:
+    return None
+  f = Fr(mv)
+  if is_pow2(f):
+    d["max"] = log2_exact(f)
+  else:
+    d["mv"] = mv
+  if round_log2(f) < -(1 << (bits - signed - 1)):
+    return None          # cap below the smallest exponent: no value left
+  return d
+
+
+def apply_history(target, hist):
+  """-> (object, final target description or None when an "update" leaves the
+  domain of well-formed types).  The "post" observations are NOT applied here
+  (the caller first looks at the re-sized object, then calls apply_ops)."""
+  start, resize = hist["start"], hist["resize"]
+  q = apply_ops(build(start), hist.get("pre", ()))
+  k = target["k"]
+  if resize == "update":
+    u = hist["upd"]
+    val = float(p2(u["e"])) * (-1.0 if u["neg"] else 1.0)
+    q.update_quantizer(val, reset=bool(u["reset"]))
+    final = desc_from_fields(q)
+  elif resize == "assign":
+    if k == "fixed":
+      q.bits, q.int_bits, q.is_signed = int(target["bits"]), int(target["int"]), int(target["signed"])
+      q.mode = 0
+    elif k == "po2":
+      q.bits = q.int_bits = int(target["bits"])
+      cap = desc_cap(target)
+      q.max_val_po2 = -1 if cap is None else float(cap)
+      q.is_signed = int(target["signed"])
+      q.name = "quantized_po2" if target["signed"] else "quantized_relu_po2"
+    else:
+      u01 = k == "binary01"
+      q.use_01, q.mode, q.is_signed = u01, (4 if u01 else 3), (0 if u01 else 1)
+    final = dict(target, via="impl")
+  elif resize == "convert":
+    from qkeras import quantizers as Q  # pylint: disable=g-import-not-at-top
+    if k == "fixed":
+      b, i, s = int(target["bits"]), int(target["int"]), int(target["signed"])
+      if type(q).__name__ == "QuantizedRelu":
+        src = Q.quantized_relu(b, i)
+      else:
+        src = Q.quantized_bits(b, i, keep_negative=bool(s))
+    elif k == "po2":
+      mv = None if desc_cap(target) is None else float(desc_cap(target))
+      src = (Q.quantized_po2 if target["signed"] else Q.quantized_relu_po2)(int(target["bits"]), max_value=mv)
+    else:
+      src = Q.binary(use_01=(k == "binary01"))
+    q.convert_qkeras_quantizer(src)
+    final = dict(target, via="factory")
+  else:
+    raise ValueError("unknown resize route %r" % (resize,))
+  return q, final
